@@ -526,6 +526,32 @@ namespace
         if (R.want_sample())
             R.sample(JObj().raw("grid", g.json()).i("query_orders", n_orders).str());
         c07_run_orders(R, rng, g, ref, *grid, n_orders);
+        if (rng.chance(0.08))
+        {
+            // grids are values: a copy of a (partly queried) grid, and a grid object that described another geometry with the
+            // same number of nodes and was queried before being assigned this one, are this grid
+            grid_t copy(*grid);
+            c07_run_orders(R, rng, g, ref, copy, 1);
+            GridSpec og = g;
+            og.overrides.clear();
+            if (family == Family::raster && g.rows != g.cols)
+                std::swap(og.rows, og.cols);
+            og.border = { { NS::core, NS::core, NS::fixed_value, NS::fixed_value } };
+            if (family == Family::profile)
+                og.border = { { NS::fixed_gradient, NS::fixed_gradient, NS::core, NS::core } };
+            og.dx = g.dx * 3.0;
+            std::string w2;
+            auto other = try_make(og, w2);
+            if (other)
+            {
+                RefGeom oref = ref_geom(og);
+                c07_run_orders(R, rng, og, oref, *other, 1);
+                *other = *grid;
+                c07_run_orders(R, rng, g, ref, *other, 1);
+                R.count("c07.assigned_grids_checked");
+            }
+            R.count("c07.copied_grids_checked");
+        }
     }
 
     // wide grids: every column count in a range (the (row, col) accessors convert flat indices back to rows and
@@ -635,6 +661,26 @@ namespace
             R.count("c17.filtered_iterations", 2);
             if (want.empty())
                 R.count("c17.empty_filter_results");
+            // iterators are self-contained values: they stay usable after the (temporary) container that made them is gone
+            {
+                std::reverse(want.begin(), want.end());
+                auto it = grid.nodes_indices(s).begin();
+                auto last = grid.nodes_indices(s).end();
+                std::vector<std::size_t> f2;
+                for (std::size_t guard = 0; it != last && guard <= n; ++it, ++guard)
+                    f2.push_back(*it);
+                if (f2 != want)
+                    fail("iter_filtered_forward_from_temporaries", std::string(ns_name(s)) + ": got " + jarr_int(f2, 40) + " want " + jarr_int(want, 40));
+                auto rit = grid.nodes_indices(s).rbegin();
+                auto rlast = grid.nodes_indices(s).rend();
+                std::vector<std::size_t> r2;
+                for (std::size_t guard = 0; rit != rlast && guard <= n; ++rit, ++guard)
+                    r2.push_back(*rit);
+                std::reverse(r2.begin(), r2.end());
+                if (r2 != want)
+                    fail("iter_filtered_reverse_from_temporaries", std::string(ns_name(s)) + ": got (reversed back) " + jarr_int(r2, 40) + " want " + jarr_int(want, 40));
+                R.count("c17.iterations_from_temporary_containers", 2);
+            }
         }
         // default base levels of a new flow graph
         {
@@ -796,6 +842,20 @@ namespace
             }
             cls += sc < 1e-3 ? "/tiny_scale" : (sc > 1e3 ? "/huge_scale" : "/scaled");
         }
+        if (rng.chance(0.3))
+        {
+            // projected coordinates: the mesh lies far from the origin compared with its extent (UTM-like eastings / northings)
+            double ext = 0;
+            for (auto& p : g.pts)
+                ext = std::max({ ext, std::fabs(p[0]), std::fabs(p[1]) });
+            const double ox = (rng.chance(0.5) ? 1 : -1) * ext * rng.logu(1e1, 1e6), oy = (rng.chance(0.5) ? 1 : -1) * ext * rng.logu(1e1, 1e6);
+            for (auto& p : g.pts)
+            {
+                p[0] += ox;
+                p[1] += oy;
+            }
+            cls += "/far_from_origin";
+        }
         return g;
     }
 
@@ -864,6 +924,37 @@ namespace
         return g;
     }
 
+    // arrays of the wrong second dimension (points [N, 3], triangles [K, 2] / [K, 4]) are refused; had one been accepted, the
+    // neighbour queries would run on whatever was built from it (the sanitizers decide)
+    template <class G>
+    void probe_wrong_mesh_arrays(Runner& R, Rng& rng, const GridSpec& g)
+    {
+        if constexpr (family == Family::mesh)
+        {
+            const bool bad_points = rng.chance(0.5);
+            const std::size_t pc = bad_points ? 3 : 2, tc = bad_points ? 3 : (rng.chance(0.5) ? 2 : 4);
+            typename G::points_type points = xt::zeros<double>(std::array<std::size_t, 2>{ { g.pts.size(), pc } });
+            typename G::triangles_type tris = xt::zeros<std::size_t>(std::array<std::size_t, 2>{ { g.tris.size(), tc } });
+            for (std::size_t i = 0; i < g.pts.size(); ++i)
+                for (std::size_t j = 0; j < pc; ++j)
+                    points(i, j) = g.pts[i][j % 2];
+            for (std::size_t t = 0; t < g.tris.size(); ++t)
+                for (std::size_t j = 0; j < tc; ++j)
+                    tris(t, j) = g.tris[t][j % 3];
+            try
+            {
+                G bad(points, tris, typename G::nodes_status_map_type{});
+                R.count("c18.wrong_array_shape_accepted");
+                for (std::size_t i = 0; i < bad.size(); ++i)
+                    (void) bad.neighbors(i);
+            }
+            catch (const std::invalid_argument&)
+            {
+                R.count("c18.wrong_array_shape_refused");
+            }
+        }
+    }
+
     void c18_case(Runner& R, Rng& rng, std::size_t max_side)
     {
         std::string cls;
@@ -918,6 +1009,9 @@ namespace
         R.nontrivial(true);
         if (R.want_sample())
             R.sample(JObj().raw("grid", g.json(40)).s("class", cls).str());
+
+        if (rng.chance(0.1))
+            probe_wrong_mesh_arrays<grid_t>(R, rng, g);
 
         if (R.want("C17"))
             c17_check_grid(R, g, ref, *grid);
